@@ -2,8 +2,7 @@ SPECIFICATION Spec
 CONSTANTS
   NWorkers = 3
   MaxChunks = 1
-  FaultTasks = 1
+  FaultTasks = 0
   SetupIds = {"inplace3", "mixed3"}
 INVARIANTS NeverLost ReadOnlyUntouched OthersUntouched DoneClean DestinationsComplete NoDescriptorLeak
-PROPERTY BakRemovedOnlyAfterComplete
 CHECK_DEADLOCK FALSE
